@@ -791,6 +791,14 @@ pub fn family_conditions(level: u8) -> Vec<RuleSpec> {
         "A or flt(g) < 1.5",
         "int(f) == 1 or int(g) == 1",
         "not (int(f) >= 1 and A)",
+        "1 >= int(f)",
+        "1 <= int(f)",
+        "1 > int(f)",
+        "2 >= int(f) and A",
+        "1.5 < flt(f)",
+        "1.5 <= flt(f)",
+        "1.5 >= flt(f)",
+        "not (1 >= int(f))",
     ] {
         out.push(RuleSpec {
             idents: vec![("A".into(), pool[2].clone())],
@@ -926,6 +934,9 @@ pub fn family_castconds(level: u8) -> Vec<RuleSpec> {
         "not A",
         "int(g) >= 2",
         "flt(f) < flt(h)",
+        "1 >= int(f)",
+        "2 > int(g)",
+        "1.5 <= flt(f)",
     ];
     let n = if level == 0 { 8 } else { atoms.len() };
     let shapes3 = [
